@@ -27,6 +27,13 @@ const VARIANTS = {
     broken: "export type B = {{",
     empty: "",
   },
+  // a file that does not exist at first (variant "absent" = not in the host file system); creating it
+  // is an update from nothing to a content
+  "zzz.ts": {
+    absent: null,
+    ok1: "export type Z = { z: 1 };",
+    ok2: "export type Z = { z: 2 };",
+  },
 };
 const FILES = Object.keys(VARIANTS);
 
@@ -48,10 +55,10 @@ export async function run() {
   const STATECAP = TIER === "thorough" ? 40000 : 3000;
   try {
     const actions = [];
-    for (const f of FILES) for (const v of Object.keys(VARIANTS[f])) actions.push({ kind: "update", f, v });
+    for (const f of FILES) for (const v of Object.keys(VARIANTS[f])) if (VARIANTS[f][v] !== null) actions.push({ kind: "update", f, v });
     actions.push({ kind: "rebuild" });
-    const initialFs = () => Object.fromEntries(FILES.map((f) => [f, "ok1"]));
-    const fsText = (fsv) => Object.fromEntries(FILES.map((f) => [f, VARIANTS[f][fsv[f]]]));
+    const initialFs = () => Object.fromEntries(FILES.map((f) => [f, f === "zzz.ts" ? "absent" : "ok1"]));
+    const fsText = (fsv) => Object.fromEntries(FILES.filter((f) => VARIANTS[f][fsv[f]] !== null).map((f) => [f, VARIANTS[f][fsv[f]]]));
     const actText = (a) => (a.kind === "rebuild" ? "rebuild" : `update(${a.f}, ${a.v})`);
     const freshCache = new Map();
     const fresh = async (fsv) => {
@@ -152,7 +159,7 @@ export async function run() {
       traces_validated_against_impl: stats.replays,
       samples,
       exhaustive: !!stats.closed,
-      explanation: "project entry.ts -> a.ts (named import) -> b.ts (namespace import); contents per file: two valid variants, unresolvable reference, missing file, syntactically broken, empty/comment-only (5+6+4 update actions + rebuild); BFS over histories, canonical state = (content-variant vector, cache fingerprint = per cached file a hash of the cached module's source text, read through the hook), every state reached by replaying its shortest history in a fresh session; invariant at every rebuild transition: (code | diagnostics, both entry points) equal those of a fresh session serving the current contents. " + (stats.closed ? "closure reached" : `depth bound ${stats.depth} completed (state cap ${STATECAP})`),
+      explanation: "project entry.ts -> a.ts (named import) -> b.ts (namespace import), plus zzz.ts which does not exist at first and is imported only by one variant of a.ts (creating it is an update from nothing); contents per file: two valid variants, unresolvable reference, import of the not-yet-existing file, syntactically broken, empty/comment-only (5+6+4+2 update actions + rebuild); BFS over histories, canonical state = (content-variant vector, cache fingerprint = per cached file a hash of the cached module's source text, read through the hook), every state reached by replaying its shortest history in a fresh session; invariant at every rebuild transition: (code | diagnostics, both entry points) equal those of a fresh session serving the current contents. " + (stats.closed ? "closure reached" : `depth bound ${stats.depth} completed (state cap ${STATECAP})`),
       depth_completed: stats.depth,
       depth_max_history: stats.maxDepth,
       rebuild_transitions_checked: stats.rebuilds,
